@@ -190,12 +190,35 @@ def fam_position(pos):
     return lambda n: POSITIONS[pos].format(E=" + ".join(["x"] * n))
 
 
+# the same positions holding a long RIGHT-NESTED chain of conditional expressions (n links deep in Python's own tree)
+def fam_ifexp_position(pos):
+    def build(n):
+        e = "".join(f"{i} if x == {i + 2} else " for i in range(n)) + "x"
+        return POSITIONS[pos].format(E="(" + e + ")")
+    return build
+
+
+# MANY early exits in one block (guard clauses): every one of them nests the rest of the block one level deeper
+def fam_guards_return(n):
+    return "def f(x):\n" + "".join(f"    if x == {i}:\n        return {i}\n" for i in range(n)) + "    return -1\nprint(f(3), f(-5))\n"
+
+
+def fam_guards_continue(n):
+    return f"t = 0\nfor k in range({n + 2}):\n" + "".join(f"    if k == {i}:\n        continue\n" for i in range(n)) + "    t += k\nprint(t)\n"
+
+
+def fam_guards_break(n):
+    return "r = 5\nt = 0\nwhile t < 3:\n    t += 1\n" + "".join(f"    if r == {i + 10}:\n        break\n" for i in range(n)) + "print(t)\n"
+
+
 FAMILIES = {"statements": fam_statements, "elif": fam_elif, "binop": fam_binop, "calls": fam_calls, "attrs": fam_attrs,
             "attr_target": fam_attr_target, "nested_if": fam_nested_if, "nested_for": fam_nested_for, "nested_def": fam_nested_def,
             "pattern": fam_pattern, "guard_return": fam_guard_return, "guard_continue": fam_guard_continue,
-            "guard_break": fam_guard_break}
+            "guard_break": fam_guard_break, "guards_return": fam_guards_return, "guards_continue": fam_guards_continue,
+            "guards_break": fam_guards_break}
 for _pos in POSITIONS:
     FAMILIES["chain@" + _pos] = fam_position(_pos)
+    FAMILIES["ifexp@" + _pos] = fam_ifexp_position(_pos)
 SCHEDULE = {
     "quick": {"statements": [10, 300, 3000], "elif": [10, 100, 600, 1200], "binop": [10, 300, 900], "calls": [10, 300, 900],
               "attrs": [10, 300, 900], "attr_target": [10, 300, 900], "nested_if": [5, 40, 95], "nested_for": [5, 19],
@@ -209,9 +232,13 @@ SCHEDULE = {
 for _g in ("guard_return", "guard_continue", "guard_break"):
     SCHEDULE["quick"][_g] = [10, 300, 3000]
     SCHEDULE["thorough"][_g] = [10, 100, 300, 1000, 3000]
+for _g in ("guards_return", "guards_continue", "guards_break"):
+    SCHEDULE["quick"][_g] = [10, 90, 3000]
+    SCHEDULE["thorough"][_g] = [10, 45, 90, 1000, 3000]
 for _tier, _sizes in (("quick", [10, 300, 900]), ("thorough", [10, 100, 300, 600, 900])):
     for _pos in POSITIONS:
         SCHEDULE[_tier]["chain@" + _pos] = _sizes
+        SCHEDULE[_tier]["ifexp@" + _pos] = [10, 300, 1200] if _tier == "quick" else [10, 100, 300, 600, 1200, 2000]
 
 
 def _work(job):
@@ -269,6 +296,8 @@ def known_class(fam, n, tr, status, detail):
         return "K-ast-unparse-recursion"
     if tr[1] == "chain_call" and tr[0] == "oneliner" and fam in ("statements", "guard_return", "guard_continue", "guard_break") and status in ("compile-recursion", "run-recursion") and n >= 1000:
         return "K-chain-call-depth"
+    if fam.startswith("guards_") and n >= 1000 and status in ("compile-error", "compile-recursion", "run-recursion", "convert-recursion"):
+        return "K-guard-clause-nesting"
     return None
 
 
